@@ -171,18 +171,65 @@ def kf_base_is_multi_reexported(w: Dict[str, Any]) -> bool:
     if not multi or not w.get("diff"):
         return False
     for ident, (a, b) in w["diff"].items():
-        if a is None or b is None or a[:3] != b[:3]:
-            return False                                   # class / kind / location must agree
-        sa = {tuple(x) for x in (a[3] or []) if x} | {tuple(x) for x in (a[4] or []) if x}
-        sb = {tuple(x) for x in (b[3] or []) if x} | {tuple(x) for x in (b[4] or []) if x}
-        if not (sa ^ sb) or not (sa ^ sb) <= multi:
+        d = _hier_delta(a, b)
+        if d is None or not d or not d <= multi:
             return False
+    return True
+
+
+def _hier_delta(a: Any, b: Any) -> Any:
+    """The definition sites that appear or disappear among the bases / the linearisation of one class between two outcomes; None when
+    the two entries differ in anything else.  Entries: [cls, kind, location, bases, mro] (full comparison) or [bases, mro] (projects
+    with import cycles: hierarchy only)."""
+    if a is None or b is None or len(a) != len(b):
+        return None
+    if len(a) == 5:
+        if a[:3] != b[:3]:
+            return None                                    # class / kind / location must agree
+        a, b = a[3:], b[3:]
+    sa = {tuple(x) for x in (a[0] or []) if x} | {tuple(x) for x in (a[1] or []) if x}
+    sb = {tuple(x) for x in (b[0] or []) if x} | {tuple(x) for x in (b[1] or []) if x}
+    return sa ^ sb
+
+
+def kf_star_of_half_analysed_module(w: Dict[str, Any]) -> bool:
+    """Known finding: `from M import *` read while M is in the middle of its own analysis (M imports, directly or not, the module
+    that star-imports it BEFORE defining some of its names) copies the names bound so far only - as the interpreter does, for which
+    the same order of imports ends in a NameError.  Which modules are half-way depends on the schedule, so a class whose base comes
+    from such a star import has that base or not.  Matches only when every site that appears or disappears is a definition of a
+    module M standing AFTER an import statement of M, and the class that differs lives in a module that star-imports M."""
+    proj = w.get("origin", {}).get("project")
+    if not proj or not w.get("diff") or w.get("invariant") != "ScheduleIndependentHierarchy":
+        return False
+    mods = proj["mods"]
+    idx = P.module_index_by_qname(proj)
+    for ident, (a, b) in w["diff"].items():
+        d = _hier_delta(a, b)
+        if not d:
+            return False
+        try:
+            mi = json.loads(ident)[0]
+        except Exception:
+            return False
+        starred = set()
+        for op in mods[mi - 1]["ops"]:
+            if op["k"] == "star":
+                q = P.resolve_import_target(proj, mi, op["lvl"], op["m"])
+                if q in idx:
+                    starred.add(idx[q])
+        for (dm, dpc) in d:
+            ops = mods[dm - 1]["ops"]
+            late = any(o["k"] in ("import", "from", "star") and not o.get("tc") for o in ops[:dpc - 1])
+            # the site may also be a class that INHERITS from such a late definition (its linearisation changes with it)
+            if not (dm in starred and late) and not any((dm2, dpc2) != (dm, dpc) and dm2 in starred for (dm2, dpc2) in d):
+                return False
     return True
 
 
 def run(ctx: Ctx) -> int:
     rng = random.Random(ctx.seed)
     ctx.register_matcher("base-reexported-by-several-modules", kf_base_is_multi_reexported)
+    ctx.register_matcher("star-import-of-a-half-analysed-module", kf_star_of_half_analysed_module)
     discover_phase(ctx, rng)
     projs = families.all_projects(ctx.quick)
     # bases that can only be resolved once an import cycle is closed and whose name is rebound further down (hierarchy only)
